@@ -22,7 +22,7 @@ RULE_TEXT = ('runs = deterministic sweep over every (phase step x position x fau
              'Non-trivial = a sandbox was created (execution got past validation) or a validation fault fired; '
              'distinct = (keep, status, shape, fired primary (phase, step, position, kind), fired cleanup fault, '
              'set of disturbance kinds executed).')
-REACH_PROBES = ['case_elsewhere_than_start_directory', 'read_through_preprocessor', 'keep', 'no_keep', 'sandbox_created', 'no_sandbox', 'ended_by_fault_with_sandbox', 'ended_pass',
+REACH_PROBES = ['action_with_output_transformation', 'case_elsewhere_than_start_directory', 'read_through_preprocessor', 'keep', 'no_keep', 'sandbox_created', 'no_sandbox', 'ended_by_fault_with_sandbox', 'ended_pass',
                 'cd_executed', 'env_executed', 'tmp_file_by_case', 'child_wrote_file', 'chmod_readonly',
                 'child_left_symlink', 'child_left_odd_entries', 'child_removed_cwd', 'cwd_deleted_when_execution_ends', 'result_observed_after_act', 'result_observed_before_act', 'double_fault', 'keep_after_failure',
                 'cwd_in_tmp_at_end']
@@ -192,8 +192,13 @@ def make_plan(i, master, tier):
                     items.append({'k': 'probe', 'id': ident, 'form': g.choice(['%', 'run', '$'])})
                     procs[ident] = {'exit': 0}
             case[ph] = items
-        act_kind = g.choices(['sys', 'shell', 'empty'], [75, 15, 10])[0]
-        case['act'] = {'lines': {'sys': ['% atc'], 'shell': ['$ atc arg'], 'empty': []}[act_kind]}
+        act_kind = g.choices(['sys', 'shell', 'empty', 'transformed'], [60, 15, 10, 15])[0]
+        case['act'] = {'lines': {'sys': ['% atc'], 'shell': ['$ atc arg'], 'empty': [],
+                                 # the program of [act] has a transformation: result/stdout holds the transformed
+                                 # output, result/stderr and result/exit-code what the action wrote / exited with
+                                 'transformed': ['% atc', '  -transformed-by char-case -to-upper']}[act_kind]}
+        if act_kind == 'transformed' and not procs['atc'].get('stderr'):
+            procs['atc'] = dict(procs['atc'], stderr='written on stderr by the action\n')
         disturb(case, procs, g)
         faults = c01.arm_random_faults(case, procs, fr, act_kind != 'empty', p_none=0.25)
         plan = c01._base_plan(seed, tier, case, status, False, faults, 'cli', procs,
@@ -357,6 +362,8 @@ def _model(plan, hist):
 def _probes(plan, hist):
     pr = hist['probes']
     pr['keep' if plan['keep'] else 'no_keep'] = 1
+    if len((plan['case'].get('act') or {}).get('lines', [])) > 1 and hist['n_sandboxes']:
+        pr['action_with_output_transformation'] = 1
     if (plan.get('launch') or {}).get('elsewhere'):
         pr['case_elsewhere_than_start_directory'] = 1
     if (plan.get('launch') or {}).get('pp'):
@@ -410,6 +417,8 @@ def oracle(plan, hist):
     exp_result_files = {'exit-code': str(atc.get('exit', 0)), 'stdout': atc.get('stdout', ''),
                         'stderr': atc.get('stderr', '')} if info['has_atc'] else \
         {'exit-code': '0', 'stdout': '', 'stderr': ''}
+    if any('-transformed-by char-case -to-upper' in l for l in (plan['case'].get('act') or {}).get('lines', [])):
+        exp_result_files['stdout'] = exp_result_files['stdout'].upper()
     first = True
     for e in hist['events']:
         key = 'act' if e['id'] in ('act', 'atc') else e['id']
